@@ -24,6 +24,7 @@ structure LRow (F : Type) where
   /-- hazard predicted by the fitted outcome model for this row with the exposure set to 1 / to 0 -/
   h1 : F
   h0 : F
+  deriving DecidableEq
 
 inductive Plan where
   | all | none | natural | custom
@@ -35,8 +36,16 @@ variable {F : Type}
 /-- `sort_values(by=[idvar, time])` -/
 def keyLe (r s : LRow F) : Bool := decide (r.id < s.id) || (decide (r.id = s.id) && decide (r.t ≤ s.t))
 
+/-- stable insertion of a record into a table sorted by (id, time) -/
+def insertRow (x : LRow F) : List (LRow F) → List (LRow F)
+  | [] => [x]
+  | y :: ys => if keyLe x y then x :: y :: ys else y :: insertRow x ys
+
+/-- stable sort by (id, time) (structural recursion, so that small instances evaluate in the kernel) -/
+def sortRows (l : List (LRow F)) : List (LRow F) := l.foldr insertRow []
+
 /-- `self.gf`: complete rows sorted by (id, time) -/
-def prep (rows : List (LRow F)) : List (LRow F) := (rows.filter (·.complete)).mergeSort keyLe
+def prep (rows : List (LRow F)) : List (LRow F) := sortRows (rows.filter (·.complete))
 
 /-- predicted hazard after the exposure column has been replaced according to the plan -/
 def hazard (p : Plan) (r : LRow F) : F :=
